@@ -124,6 +124,88 @@ def infer_stream(ck, srcs):
                             {"prql": s, "implementation": want, "model": got}, lambda c: None)
 
 
+def flatten_items(pg):
+    """abstract program -> Coq `list (pitem (list bool))` (Model/Flatten.v); None when a shape is not modelled"""
+    def k(keys):
+        return "[" + "; ".join("true" if d else "false" for d, _ in keys) + "]"
+    items = []
+    for st in pg.steps:
+        kd = st.kind
+        if kd == "sort":
+            items.append("PSort %s" % k(st.info["keys"]))
+        elif kd == "take":
+            items.append("PTake")
+        elif kd == "win":
+            items.append("PWindow [PWin]" if st.info.get("frame") else "PWin")
+        elif kd == "group_take":
+            items.append("PGroup true [PSort %s; PTake]" % k(st.info["keys"]))
+        elif kd == "group_win":
+            items.append("PGroup true [PSort %s; PWin]" % k(st.info["keys"]))
+        elif kd == "group_agg":
+            items.append("PGroup true [POther]")
+        elif kd == "distinct":
+            items.append("PGroup true [PTake]")
+        elif kd in ("join", "append", "knownjoin"):
+            items.append("PSub []")
+        elif kd in ("derive", "filter", "select", "aggregate", "exclude"):
+            items.append("POther")
+        else:
+            return None
+    return "[" + "; ".join(items) + "]"
+
+
+def rq_tokens(rq):
+    """order-sensitive transforms of the main pipeline of the implementation's RQ"""
+    rel = rq.get("relation", {}).get("kind", {})
+    if "Pipeline" not in rel:
+        return None
+    def d(sorts):
+        return [s["direction"] == "Desc" for s in sorts]
+    out = []
+    for t in rel["Pipeline"]:
+        if not isinstance(t, dict):
+            continue
+        (n, v), = t.items()
+        if n == "Sort":
+            out.append(("OSort", d(v)))
+        elif n == "Take":
+            out.append(("OTake", bool(v.get("partition")), d(v.get("sort", []))))
+        elif n == "Compute" and v.get("window") is not None:
+            w = v["window"]
+            out.append(("OWin", bool(w.get("partition")), d(w.get("sort", []))))
+    return out
+
+
+def flatten_stream(ck, programs):
+    """Tie B for Model/Flatten.v: the sorts the resolver hands to takes / windowed computes, and which Sort
+    transforms survive, in the implementation's RQ vs the model run on the abstract program"""
+    cand = [(pg, flatten_items(pg)) for pg in programs if not pg.meta.get("let_at")]
+    cand = [(pg, it) for pg, it in cand if it is not None]
+    ans = harness("rq", [{"src": pg.prql()} for pg, _ in cand])
+    exprs, meta = [], []
+    for (pg, it), a in zip(cand, ans):
+        if "ok" not in a:
+            continue
+        toks = rq_tokens(a["ok"])
+        if toks is None:
+            continue
+        exprs.append("(fst (flat (list bool) [] 200 false false [] %s))" % it)
+        meta.append((pg, toks))
+    header = "From Coq Require Import List Bool.\nFrom PV Require Import Model.Flatten.\nImport ListNotations.\n"
+    vals = coq_eval(header, exprs) if exprs else []
+    for (pg, toks), v in zip(meta, vals):
+        ck.count("flatten", pg.prql())
+        got = []
+        for o in v:
+            if o[0] == "OSort":
+                got.append(("OSort", list(o[1])))
+            else:
+                got.append((o[0], o[1], list(o[2])))
+        if got != toks:
+            ck.disagreement("flattener: the sorts carried in the implementation's RQ differ from Model/Flatten.v on %s" % pg.prql().replace("\n", " | ")[:220],
+                            {"prql": pg.prql(), "implementation_rq": toks, "model": got}, lambda c: None)
+
+
 def main_order_by(sql):
     """does the outermost query end with an ORDER BY at parenthesis depth 0?"""
     depth = 0
@@ -254,6 +336,12 @@ def run():
     ck.coverage["programs_with_tied_order_checked_by_keys"] = nkeys
     srcs = sorted({r["prql"] for r in recs if "sql" in r})
     infer_stream(ck, srcs)
+    seenp, progs = set(), []
+    for pg, _ in cases:
+        if pg.prql() not in seenp:
+            seenp.add(pg.prql())
+            progs.append(pg)
+    flatten_stream(ck, progs)
 
     ck.proof_broken_violation(found_input=bool(ck.violations))
     ck.assumptions += ["each ordered program runs on two insertion orders of the same rows, so an order that is only incidental on one of them shows",
